@@ -48,7 +48,7 @@ CHECKS = {
             "DESIGN.md §4 C08", "E1-stateless"),
     "C09": ("model_checking",
             "explicit-state BFS over update/advance/flush/restart/limit/clear/read histories on the real StatsCtx (bbolt) against an hour->counters reference, plus preemption-bounded exhaustive schedule exploration of Update || flush || API read || reset under the cooperative scheduler",
-            "Histories of depth 5 (quick) / 7 (thorough) over 20 operations (5 result categories, 2 clients, 2 domains, hour advances by 1, 2, L-1, L, L+1, flush, clean restart, retention limits 1/2/3/24/192 h through both handlers, clear); after every transition GET /control/stats is compared with the reference (totals, hourly series per hour, daily series <= totals, window). Schedules: 12 thread sets (update, other update, hour rollover + flush, API read, reset, clean shutdown followed by a reopen) x {0,2} earlier updates, all interleavings at lock/atomic operations and lock releases of stats and bbolt with <=1 (quick) / <=2 (thorough) preemptions; every response internally consistent and every update counted exactly once after quiescence.",
+            "Histories of depth 5 (quick) / 7 (thorough) over 21 operations (5 result categories, 2 clients, 2 domains, hour advances by 1, 2, L-1, L, L+1, flush, clean restart, retention limits 1/2/3/24/192 h through both handlers, switching statistics off, clear); after every transition GET /control/stats is compared with the reference (totals, hourly series per hour, daily series <= totals, window). Schedules: 12 thread sets (update, other update, hour rollover + flush, API read, reset, clean shutdown followed by a reopen) x {0,2} earlier updates, all interleavings at lock/atomic operations and lock releases of stats and bbolt with <=1 (quick) / <=2 (thorough) preemptions; every response internally consistent, never below the count completed before the threads started, and every update counted exactly once after quiescence.",
             "hours that lay outside the window at some moment may legitimately have been deleted (0 or full count accepted); a read refused with HTTP 500 while a reset replaces the database is accepted; top_* lists are not compared.",
             "DESIGN.md §4 C09", "E1-BFS+E2"),
     "C10": ("model_checking",
